@@ -1,6 +1,5 @@
 \* repaired design (own proposal logged), validator 2 is proposer of (1,1) (reached by round skip or precommit timeout); rounds 0..1, one height,
 \* one valid peer value, votes from peers 1 and 3; every crash point, one crash
-\* Measured: 1,838,381 distinct states, depth 37.
 CONSTANTS
   NV = 4
   PowerOf <- DrvPowerOf
@@ -15,7 +14,7 @@ CONSTANTS
   H0 = 1
   MaxHeight = 1
   PropShift = 3
-  MaxInputs = 4
+  MaxInputs = 3
   MaxCrashes = 1
   VotePeers = {1, 3}
   FutureH = 0
